@@ -135,6 +135,9 @@ KINDS = {
     "tuple_u64": ({"type": "array", "items": [{"type": "integer", "format": "uint64", "minimum": 0}, STR], "minItems": 2, "maxItems": 2}, [[18446744073709551615, "s"]], [[-1, "s"]], False),
     "struct_u64": ({"type": "object", "properties": {"bytes": {"type": "integer", "format": "uint64", "minimum": 0}, "low": {"type": "integer", "format": "int64"}}, "required": ["bytes"]},
                    [{"bytes": 18446744073709551615, "low": -9223372036854775808}, {"bytes": 0}], [{"bytes": -1}], False),
+    # nested integers of NARROW types: values beyond the element type (also beyond i64) inside array / map defaults
+    "vec_i8": ({"type": "array", "items": {"type": "integer", "format": "int8"}}, [[127, -128], []], [[9223372036854775808], [128], [-129]], False),
+    "map_u8": ({"type": "object", "additionalProperties": {"type": "integer", "format": "uint8", "minimum": 0}}, [{"k": 255}], [{"k": 18446744073709551615}, {"k": 256}], False),
     "enum_unt": (ref("Unt"), ["s", 5, [1]], [True, {}], False),
     "alias": (ref("Al"), [{"x": 2}], [{"x": "s"}], False),
     "boxed": (ref("Rec"), [{}, {"r": {}}], [{"r": 5}], False),
@@ -146,7 +149,7 @@ KINDS = {
 FLOAT_SPELLED = {"i64": [5.0], "u8": [7.0], "opt_u64": [5.0], "vec": [[80.0, 443.0]], "typed_enum": [2.0], "struct": [{"x": 1e3}], "tuple2": None, "map_int": [{"a": 2.0}], "nz32": [3.0]}
 FLOAT_SPELLED = {k: v for k, v in FLOAT_SPELLED.items() if v}
 QUICK_KINDS = ["bool", "u8", "i64", "nz32", "f64", "string", "str_max2", "str_enum", "opt_scalar", "opt_struct", "vec", "set", "map_int", "map_any", "map_key", "map_enum_key", "map_patprops", "map_key_len",
-               "tuple1", "tuple2", "struct", "struct_closed", "struct_renamed", "alias", "struct_req_nullable", "struct_nested_defaults", "struct_inline_defaults", "enum_inline_defaults", "struct_flat", "struct_flat_renamed", "struct_flat_renamed_inline", "enum_ext", "enum_int", "opt_u64", "vec_u64", "map_u64", "tuple_u64", "struct_u64", "enum_adj", "enum_adj_closed", "enum_int_closed", "enum_ext_closed", "enum_adj3", "allof_struct", "tuple_unit", "struct_unit_member", "enum_unt", "enum_ext_tuple", "enum_adj_tuple", "enum_unt_struct", "deny_list", "str_pattern", "str_mb", "str_min3_mb", "str_minmax",
+               "tuple1", "tuple2", "struct", "struct_closed", "struct_renamed", "alias", "struct_req_nullable", "struct_nested_defaults", "struct_inline_defaults", "enum_inline_defaults", "struct_flat", "struct_flat_renamed", "struct_flat_renamed_inline", "enum_ext", "enum_int", "opt_u64", "vec_i8", "map_u8", "vec_u64", "map_u64", "tuple_u64", "struct_u64", "enum_adj", "enum_adj_closed", "enum_int_closed", "enum_ext_closed", "enum_adj3", "allof_struct", "tuple_unit", "struct_unit_member", "enum_unt", "enum_ext_tuple", "enum_adj_tuple", "enum_unt_struct", "deny_list", "str_pattern", "str_mb", "str_min3_mb", "str_minmax",
                "typed_enum", "boxed", "unit", "uuid"]
 
 
